@@ -22,7 +22,7 @@ from ..envs import EnvA
 from ..model import AnalysisError
 from ..tables import routing as T
 
-FLOOR = 27
+FLOOR = 33
 EXPLANATION = (
     "Static writer/reader agreement checks: npz save/load key sets, keys emitted by generate_<problem>_data vs keys read by the "
     "matching env's load_data and _reset (value graph of _reset), FJSP text writer vs parser (machine-id shift, token order, "
